@@ -1,4 +1,138 @@
 # per-property claims; executed by gen_manifest.py (claim(...) / na(...))
+# Every text says which structural clauses are decided and that the run-time behaviour itself is not executed.
+
+claim(
+    "C01",
+    "def-use slicing through constructor summaries + rational-function normal forms (no solver) + decision-table "
+    "evaluation of the NaN-aware helpers",
+    "Decides the algebraic shape of merge for all 19 primitives: every content field of a+b depends on that field of both "
+    "operands (and the key set of data-keyed containers on both key sets); scalar combining expressions are symmetric "
+    "under swapping the operands and the empty-side branches mirror each other; NaN-initialised fields are combined under "
+    "a two-sided empty guard or a NaN-as-missing helper with a checked decision table; zero() is parameter-preserving and "
+    "content-free; fill equals + with the singleton as an identity of rational functions (Count, Sum, Average, Deviate; "
+    "non-empty and empty node); defs.combine/increment. Necessary conditions of the property; associativity, data-dependent "
+    "key sets under fill and floating-point rounding are NOT decided.",
+    "Identities are over the reals; formula extraction follows the branch selected by the stated scenario (finite datum, "
+    "empty/non-empty operands); an unsupported construct is ANALYSIS-ERROR, never a pass.",
+    "DESIGN.md section 3, C01",
+)
+claim(
+    "C04",
+    "writer/reader agreement by def-use analysis (toJsonFragment vs fromJsonFragment -> ed -> __init__), mode typestate of "
+    "constructors, rational-function composition for inverse pairs",
+    "Decides that the two JSON code paths of every primitive agree: identical mandatory/optional key sets at every level, "
+    "every key read back into the field it was written from, encoder applied exactly where the reader admits "
+    "'nan'/'inf'/'-inf', children rebuilt by the factory of their own type tag with paired name suppression, registry and "
+    "specialised `name` properties, fields established only by ed() surviving zero/+/* of a reloaded container with no slot "
+    "left None, and no JSON-keyed dict splatted into named parameters. Bit-exact float text and equality of reloaded "
+    "content for arbitrary states are NOT decided.",
+    "Assumes maybeAdd adds exactly the non-None keyword pairs and hasKeys is the closed-set test its body states (its "
+    "shape is part of C15's gates).",
+    "DESIGN.md section 3, C04",
+)
+claim(
+    "C06",
+    "ownership/shape abstract interpretation with constructor summaries + effect summaries (fixpoint over self-calls)",
+    "Decides aliasing and effects in the code's shape: all methods of the primitives, Container and the plot/specialised "
+    "mixins outside the declared mutators have no store effect on receiver, arguments or anything borrowed from them; every "
+    "aggregator stored into a child slot of the result of __add__/__mul__/zero is fresh; aggregator-valued default arguments "
+    "(45 sites incl. dfinterface) reach fillable slots only through copy()/zero() and constructor summaries do not weaken "
+    "against the confirmed table; template instantiation in fill/_numpy is fresh per slot; quantity names are written only "
+    "on objects fresh out of ed(). Run-time object graphs built by user code are NOT decided.",
+    "Induction hypothesis: +, *, zero(), copy() of a child aggregator return fresh objects (the same rule is checked on every "
+    "class). Flow-insensitive joins make the analysis conservative.",
+    "DESIGN.md section 3, C06",
+)
+claim(
+    "C07",
+    "sibling agreement __iadd__ vs __add__ (def-use labels, guard signatures) + ownership lattice + CFG return check",
+    "Decides for all 19 __iadd__: delegation (`both = self + other`, every content field taken from it) or in-place idiom with "
+    "the same raising structural guards as __add__, every accumulator augmented (not overwritten) from the same field of "
+    "`other`, every child slot merged with +=, right-only keys inserted; every normal path returns self; `other` is never "
+    "written and nothing borrowed from it is stored into self; fillsparksql merges with +=. Value-level equality under "
+    "rounding is NOT decided.",
+    "Same induction as C06 for child +=.",
+    "DESIGN.md section 3, C07",
+)
+claim(
+    "C08",
+    "abstract evaluation over factor classes {NaN,<0,0,>0} + homogeneity-degree inference from fill + container-kind inference",
+    "Decides for all 19 __mul__/__rmul__: exactly the NaN/non-positive factor classes return self.zero(); the scaling table "
+    "derived from fill by homogeneity (weight, entries degree 1; datum degree 0) - extensive accumulators and every child slot "
+    "multiplied by the factor, intensive ones copied; __rmul__ delegates; stores keep the container kind fixed by __init__ "
+    "wherever the class uses the field kind-sensitively (tuple concat, hash, item assignment); Count refuses a non-identity "
+    "transform first. Numeric identities under rounding are NOT decided.",
+    "The degree assignment must be the unique consistent one; otherwise ANALYSIS-ERROR.",
+    "DESIGN.md section 3, C08",
+)
+claim(
+    "C09",
+    "def-use analysis of __eq__ (field-dependence labels with keys/len/zip flavours) + evaluation-order isinstance check + "
+    "shape check of numeq",
+    "Decides which fields == can see: every field that toJsonFragment serialises flows from both operands into a "
+    "content-sensitive comparison not under `or`; iterating/sorting a dict compares keys only and does not count; zip counts "
+    "only with a length equality; NaN-initialised fields go through numeq; isinstance(other, K) precedes any read of other; "
+    "__ne__ negates ==; numeq has the NaN/inf/guarded-widening-tolerance/exact-fallback shape. Equality of clones is NOT "
+    "decided (needs their content).",
+    "UserFcn equality by code object is taken as given.",
+    "DESIGN.md section 3, C09",
+)
+claim(
+    "C10",
+    "must-dataflow of the type guard over the CFG + raising-comparison extraction + typestate for atomic rejection",
+    "Decides for all 19 __add__/__iadd__: the type of `other` is established (isinstance with a failure edge that can only "
+    "raise, or an attribute only that class defines) before any store, child merge or construction; every structural "
+    "parameter is compared with a raising mismatch edge (scalars by value, fixed layouts by length/keys/thresholds, data-keyed "
+    "containers by declared content type); and that += changes no state before an operation that can still reject - the "
+    "last clause fails on the 12 container classes, which are recorded as known findings. Run-time behaviour on concrete "
+    "trees is NOT executed.",
+    "Nested mismatches surface from the child's own guard (induction over the same rule on every class).",
+    "DESIGN.md section 3, C10",
+)
+claim(
+    "C11",
+    "set agreement between specialize/__getstate__/__setstate__, branch coverage of __reduce__, attribute resolution",
+    "Narrow structural part: wrapper attributes installed, stripped and rebuilt are the same set and __dict__ is restored "
+    "first; __reduce__ covers None/str/function and raises otherwise, its deserializers are module-level and restore every "
+    "attribute __init__ sets; every self.x in the pickling helpers resolves; Select.__getattr__ cannot recurse. Fidelity of "
+    "marshal-ed code and liveness/equality of the clone are NOT decided.",
+    "pickle's protocol itself is trusted.",
+    "DESIGN.md section 3, C11",
+)
+claim(
+    "C12",
+    "typestate (Clean -> Dirty on the first own-state store) over the CFG of every fill and its self-helpers",
+    "Decides the ordering clause on every path of all 19 fill(): after the node's own state changed, no user function, "
+    "child fill, raising helper, explicit raise, computed index or operation on a not-yet-validated user value can follow; "
+    "single-path containers fill at most one child per path (induction step for ancestors); the repository's own rollback "
+    "marker comment never follows an own-state store. Run-time exception behaviour is NOT executed; numpy paths are outside "
+    "the property.",
+    "math.isnan/isinf, arithmetic and comparisons on a validated numbers.Real, and membership/store on the node's own dict "
+    "with a validated hashable key do not raise.",
+    "DESIGN.md section 3, C12",
+)
+claim(
+    "C13",
+    "attribute resolution in composed classes + call-graph reachability + element-count identities (value-numbered "
+    "polynomials)",
+    "Narrow structural part: every self.x in primitives/specialised classes/plot mixins resolves in each composition; the "
+    "accessors of Bin/SparselyBin/CentrallyBin reach the routing function fill uses and do not re-implement index arithmetic; "
+    "element counts agree (edges = entries + 1, centres = entries = num_bins) on the full-range and general branches; "
+    "Categorize labels/entries iterate the same dict. Sub-range numerics, 2-D grids, projections and mpv are NOT decided.",
+    "IrregularlyBin.fill routes inline, so there is no shared routing function to compare with for that class.",
+    "DESIGN.md section 3, C13",
+)
+claim(
+    "C14",
+    "interprocedural alias propagation of the frame parameter + def-use export check + key-vocabulary agreement",
+    "Narrow structural part: along the call graph from make_histograms the input frame and its plain aliases are never the "
+    "target of a direct store; data-derived filler attributes read while histograms are built are exported by "
+    "get_features_specs and make_histograms forwards its specification parameters; every bin-spec key set produced anywhere "
+    "is accepted by a branch of get_hist_bin; _fill_histogram fills through hist.fill.numpy. The homomorphism over row chunks, "
+    "dtype inference and quantiles are run-time and NOT decided.",
+    "Only the pandas filler is followed (spark is not importable here and is outside the property's environment).",
+    "DESIGN.md section 3, C14",
+)
 claim(
     "C15",
     "static path analysis over statement CFGs: per-iteration definite assignment, must-consume dataflow, "
@@ -14,5 +148,27 @@ claim(
     "fragment (induction over the same rule on all 19 readers). version.compatible's arithmetic is taken as given.",
     "DESIGN.md section 3, C15",
 )
-for _p in ["C01", "C02", "C03", "C04", "C05", "C06", "C07", "C08", "C09", "C10", "C11", "C12", "C13", "C14", "C16", "C17"]:
-    na(_p, "check under construction in this session (see DESIGN.md section 3 for the planned static rules); not claimed until it runs clean")
+claim(
+    "C16",
+    "dominance + control-dependence analysis of the cross-reference walk and its call sites",
+    "Decides: every fill and fillnumpy calls the walk on a node dominating every own-state store, child fill and user call; "
+    "`children` reads every stored slot fill/_numpy fill; in the walk the identity test and raise must not be "
+    "control-dependent on the once-only flag the same traversal sets - this last clause fails on today's tree and is "
+    "recorded as a known finding. Detection on concrete trees is NOT executed.",
+    "none beyond the class model.",
+    "DESIGN.md section 3, C16",
+)
+claim(
+    "C17",
+    "attribute resolution + def-use agreement of the memo attributes + isinstance-order check of the wrapper table",
+    "Narrow structural part: self.x reads in UserFcn/CachedFcn resolve; CachedFcn's hit condition reads exactly the "
+    "attributes the miss path writes, compares positionals under a length equality and keywords under key-set equality and "
+    "calls the base __call__ unchanged; serializable/cached/named never double-wrap, carry expr and name, test the subclass "
+    "first, and a second name raises; UserFcn.__call__ compiles once and passes arguments through. What string expressions "
+    "evaluate to is NOT decided.",
+    "none beyond the class model.",
+    "DESIGN.md section 3, C17",
+)
+for _p in ["C02", "C03", "C05"]:
+    na(_p, "routing evaluator (finite-domain abstract interpreter of fill/_numpy, DESIGN 2.4) still under construction in this "
+           "session; not claimed until it runs clean on the unchanged tree")
